@@ -108,8 +108,8 @@ Proof. exact one_at_a_time_actor_side. Qed.
      processing a key, which in turn needs the queuer invariant below.
    C14_key_order: with key-persistent routing the EStart events of one key follow dispatch order.
    C14_queuer_no_idle_backlog (full): fq <> [] -> every idle non-draining pool worker is listed in `avail`.
-   C14_one_at_a_time for the REAL slots (mailbox + running slot of a worker's actor hold at most one
-     job) needs the same no-stale-completion hypothesis as affinity: F3 puts a second job in the mailbox.
+   (one job at a time for the REAL slots -- mailbox + handler of a worker's actor -- is proved under the
+     no-stale-completion hypothesis as C13_worker_holds_one in Properties/C13.v.)
    They are checked on every run by check_C14 on the implementation's histories and by the
    model/implementation view comparison; the unrestricted affinity statement is refuted below. *)
 
